@@ -76,11 +76,8 @@ func (h *NFSProcedureHandler) HandleCall(call *RPCCall, body io.Reader, authCtx 
 	// Acquire policy read lock. TryRLock fails if a policy update (Lock)
 	// is in progress, causing us to return JUKEBOX so clients retry.
 	if !handler.policyRWMu.TryRLock() {
-		// Policy drain in progress -- return NFSERR_JUKEBOX
-		var buf bytes.Buffer
-		xdrEncodeUint32(&buf, NFSERR_JUKEBOX)
-		reply.Data = buf.Bytes()
-		return reply, nil
+		// Policy drain in progress -- return NFSERR_JUKEBOX in the shape of the called procedure
+		return drainReply(call, reply), nil
 	}
 	// DO NOT defer RUnlock here -- the goroutine owns the lock so that
 	// drain-and-swap blocks until the goroutine's filesystem work finishes,
@@ -136,6 +133,7 @@ func (h *NFSProcedureHandler) HandleCall(call *RPCCall, body io.Reader, authCtx 
 			result, err = h.handleMountCall(call, body, reply, authCtx)
 		case NFS_PROGRAM:
 			result, err = h.handleNFSCall(call, body, reply, authCtx)
+			result = liftGarbageArgs(result)
 		default:
 			reply.AcceptStatus = PROG_UNAVAIL
 			select {
@@ -176,6 +174,67 @@ func (h *NFSProcedureHandler) HandleCall(call *RPCCall, body io.Reader, authCtx 
 }
 
 // Helper functions for common operations
+
+// liftGarbageArgs turns a handler result whose status word is GARBAGE_ARGS into
+// the RPC-level answer. GARBAGE_ARGS is an RPC accept_stat (RFC 1831), not an
+// nfsstat3 (4 is not a member of that enumeration): on the wire it belongs in
+// the reply header and no procedure results follow.
+func liftGarbageArgs(reply *RPCReply) *RPCReply {
+	if reply == nil || reply.AcceptStatus != SUCCESS {
+		return reply
+	}
+	if data, ok := reply.Data.([]byte); ok && len(data) >= 4 &&
+		data[0] == 0 && data[1] == 0 && data[2] == 0 && data[3] == GARBAGE_ARGS {
+		reply.AcceptStatus = GARBAGE_ARGS
+		reply.Data = nil
+	}
+	return reply
+}
+
+// drainReply builds the "try again later" answer given while a policy update
+// drains in-flight requests, in the result shape of the called procedure.
+func drainReply(call *RPCCall, reply *RPCReply) *RPCReply {
+	switch call.Header.Program {
+	case NFS_PROGRAM:
+		if call.Header.Version != NFS_V3 {
+			reply.AcceptStatus = PROG_MISMATCH
+			return reply
+		}
+		switch call.Header.Procedure {
+		case NFSPROC3_NULL:
+			return reply
+		case NFSPROC3_GETATTR:
+			return nfsErrorReply(reply, NFSERR_JUKEBOX)
+		case NFSPROC3_LOOKUP, NFSPROC3_ACCESS, NFSPROC3_READLINK, NFSPROC3_READ, NFSPROC3_READDIR,
+			NFSPROC3_READDIRPLUS, NFSPROC3_FSSTAT, NFSPROC3_FSINFO, NFSPROC3_PATHCONF:
+			return nfsErrorWithPostOp(reply, NFSERR_JUKEBOX)
+		case NFSPROC3_SETATTR, NFSPROC3_WRITE, NFSPROC3_CREATE, NFSPROC3_MKDIR, NFSPROC3_SYMLINK,
+			NFSPROC3_MKNOD, NFSPROC3_REMOVE, NFSPROC3_RMDIR, NFSPROC3_COMMIT:
+			return nfsErrorWithWcc(reply, NFSERR_JUKEBOX)
+		case NFSPROC3_RENAME:
+			return nfsErrorWithDoubleWcc(reply, NFSERR_JUKEBOX)
+		case NFSPROC3_LINK:
+			return nfsErrorWithPostOpAndWcc(reply, NFSERR_JUKEBOX)
+		default:
+			reply.AcceptStatus = PROC_UNAVAIL
+			return reply
+		}
+	case MOUNT_PROGRAM:
+		if call.Header.Procedure == 1 {
+			// MNT: mountstat3 has no "try later"; MNT3ERR_SERVERFAULT is the closest
+			var buf bytes.Buffer
+			xdrEncodeUint32(&buf, 10006)
+			reply.Data = buf.Bytes()
+			return reply
+		}
+		// the other MOUNT procedures have no status to carry a refusal in
+		reply.AcceptStatus = SYSTEM_ERR
+		return reply
+	default:
+		reply.AcceptStatus = PROG_UNAVAIL
+		return reply
+	}
+}
 
 // nfsErrorReply creates an error response with the given NFS status code.
 // Used for procedures that need only the status (e.g. GETATTR).
